@@ -38,7 +38,8 @@ theorem countAt_outside (mn mx : Option K) (x : K) :
   · rename_i v0 f0 vl fl lo' hi' _ _ h3 h4
     simp only [Option.some.injEq] at h3 h4
     subst h3; subst h4
-    rw [if_pos h]
+    rw [if_pos]
+    simpa [Gen.DistogramExpr.countOutside] using h
   · rfl
 
 /-- **`count_at` is 0 at the minimum.** -/
@@ -199,6 +200,7 @@ theorem quantile_outside (floor : K → K) (mn mx : Option K) (value : K) :
   split
   · rfl
   · rw [if_pos]
+    simp only [Gen.DistogramExpr.quantInRange, decide_eq_true_eq]
     intro ⟨h0, h1⟩
     rcases h with h | h <;> linarith
 
@@ -287,26 +289,28 @@ theorem quantile_mono (floor : K → K) (ok : HistOK bins lo hi) (hf : FloorLike
     | exact scanQ_mono (v0, f0) tail 0 _ _ r1 r2 ok.inc ok.pos (by linarith) (by linarith) q1' q2'
 
 /-- **A profile's estimates below and above a point add up to the number of non-null values**
-whenever the estimate exists (`nonNull = count - missing`). -/
-theorem below_add_above (nonNull : K) (mn mx : Option K) (p b : K)
+(`count - missing`, the expression of `estimate_values_above` as it is in the source) whenever the
+estimate exists. -/
+theorem below_add_above (count missing : K) (mn mx : Option K) (p b : K)
     (h : estimateBelow bins mn mx p = some b) :
-    ∃ a, estimateAbove nonNull bins mn mx p = some a ∧ b + a = nonNull := by
+    ∃ a, estimateAbove count missing bins mn mx p = some a ∧ b + a = count - missing := by
   unfold estimateBelow at h
   unfold estimateAbove
   rw [h]
-  exact ⟨nonNull - b, rfl, by ring⟩
+  exact ⟨count - missing - b, rfl, by ring⟩
 
 /-- **The profile's estimates inherit the bounds**: a column profile's histogram holds numpy's
 left edges, so its first centre *is* the minimum (`hhead`) and its counts add up to the non-null
-values (`hm`); then inside the observed range both estimates exist, lie in `[0, nonNull]` and add
-up to `nonNull` — at full strength, the open finding C14-K01 does not reach profiles. -/
-theorem profile_estimates_bounded (ok : HistOK bins lo hi) (nonNull : K) (hm : mass bins = nonNull)
+values (`hm`); then inside the observed range both estimates exist, lie in `[0, count - missing]`
+and add up to it — at full strength, the open finding C14-K01 does not reach profiles. -/
+theorem profile_estimates_bounded (ok : HistOK bins lo hi) (count missing : K)
+    (hm : mass bins = count - missing)
     (hhead : ∀ v0 f0, bins.head? = some (v0, f0) → lo = v0) {p : K} (h0 : lo ≤ p) (h1 : p ≤ hi) :
     ∃ b a, estimateBelow bins (some lo) (some hi) p = some b ∧
-      estimateAbove nonNull bins (some lo) (some hi) p = some a ∧
-      0 ≤ b ∧ b ≤ nonNull ∧ 0 ≤ a ∧ a ≤ nonNull ∧ b + a = nonNull := by
+      estimateAbove count missing bins (some lo) (some hi) p = some a ∧
+      0 ≤ b ∧ b ≤ count - missing ∧ 0 ≤ a ∧ a ≤ count - missing ∧ b + a = count - missing := by
   obtain ⟨r, hr, hr0, hr1⟩ := countAt_bounds_partial ok (fun v0 f0 h => Or.inl (hhead v0 f0 h)) h0 h1
-  refine ⟨r, nonNull - r, hr, by unfold estimateAbove; rw [hr]; rfl, hr0, by rw [← hm]; exact hr1, ?_, ?_, by ring⟩
+  refine ⟨r, count - missing - r, hr, by unfold estimateAbove; rw [hr]; rfl, hr0, by rw [← hm]; exact hr1, ?_, ?_, by ring⟩
   · rw [← hm]; linarith
   · linarith
 
